@@ -306,6 +306,10 @@ func (ex *Exec) knownFalse(st *State, c Term) bool {
 
 func (ex *Exec) jump(st *State, frID int, from, to *ssa.BasicBlock, k Cont) {
 	ex.paths++
+	if ex.pathCap > 0 && ex.paths > ex.pathCap {
+		ex.capHit = true
+		return
+	}
 	if ex.paths > maxPaths {
 		ex.unsupported("too many paths in %s", ex.fn.Name())
 		return
